@@ -317,7 +317,7 @@ func c13CheckKeyDirs(c *Ctx, r *Result, outsRoot string, keys []string, dirs []s
 	return ok
 }
 
-// c13MappedOwnLocation: the model-free "location of its own" check.
+// c13MappedOwnLocation: the model-free "location of its own" check over all forks of a mapped call.
 func c13MappedOwnLocation(params []c13Member, mon *c13Mon, preJ, postJ *c13J, psDir string) {
 	outsRoot := filepath.Join(psDir, "outs")
 	at := map[string]string{}
@@ -325,73 +325,80 @@ func c13MappedOwnLocation(params []c13Member, mon *c13Mon, preJ, postJ *c13J, ps
 		return
 	}
 	for i, k := range preJ.Keys {
-		pre := preJ.Vals[i]
 		post := postJ.get(k)
 		if post == nil {
 			mon.failf("fork %q: record missing from the rewritten outputs", k)
 			continue
 		}
-		for _, p := range params {
-			// walk pre and post in parallel (same shape is checked by the strict walk)
-			var walk func(where string, mem c13Member, a, b *c13J)
-			walk = func(where string, mem c13Member, a, b *c13J) {
-				if a == nil || b == nil || a.K == 'n' || !mem.Ty.hasFile() {
+		c13OwnLocationRecord(fmt.Sprintf("fork %q ", k), params, mon, preJ.Vals[i], post, outsRoot, at)
+	}
+}
+
+// c13OwnLocationRecord: for one record - every file leaf that was a regular file / directory
+// inside the pipestance, named by exactly one leaf, is recorded at a path strictly below outs/
+// which is not a symlink, holds the content that leaf had, and is shared with no other leaf
+// (`at`: locations taken so far).  Does not prescribe WHICH path.
+func c13OwnLocationRecord(label string, params []c13Member, mon *c13Mon, pre, post *c13J, outsRoot string, at map[string]string) {
+	psDir := mon.psDir
+	for _, p := range params {
+		var walk func(where string, mem c13Member, a, b *c13J)
+		walk = func(where string, mem c13Member, a, b *c13J) {
+			if a == nil || b == nil || a.K == 'n' || !mem.Ty.hasFile() {
+				return
+			}
+			switch mem.Ty.Kind {
+			case "f":
+				if a.K != 'q' || mon.pre[a.S] == "" || mon.kind[a.S] != "reg" || mon.occ[a.S] != 1 ||
+					!strings.Contains(filepath.Clean(a.S), psDir) {
 					return
 				}
-				switch mem.Ty.Kind {
-				case "f":
-					if a.K != 'q' || mon.pre[a.S] == "" || mon.kind[a.S] != "reg" || mon.occ[a.S] != 1 ||
-						!strings.Contains(filepath.Clean(a.S), psDir) {
-						return
-					}
-					if b.K != 'q' {
-						return // reported by the strict walk
-					}
-					who := fmt.Sprintf("fork %q %s", k, where)
-					if !strings.HasPrefix(b.S, outsRoot+"/") {
-						mon.failf("%s: not materialised under outs/: recorded at %s", who, b.S)
-						return
-					}
-					if other, dup := at[b.S]; dup {
-						mon.failf("%s: recorded at the same location as %s: %s", who, other, b.S)
-					}
-					at[b.S] = who
-					if info, err := os.Lstat(b.S); err != nil {
-						mon.failf("%s: nothing at the recorded location %s", who, b.S)
-					} else if info.Mode()&os.ModeSymlink != 0 {
-						mon.failf("%s: the recorded location %s is a symlink, not the file", who, b.S)
-					} else if got := c13SigOf(b.S, 0); got != mon.pre[a.S] {
-						mon.failf("%s: %s holds %q, not the content this fork produced (%s)", who, b.S, c13Short(got), c13Short(mon.pre[a.S]))
-					}
-				case "a":
-					if a.K != 'A' || b.K != 'A' || len(a.Arr) != len(b.Arr) {
-						return
-					}
-					et := mem.Ty.Elem
-					if mem.Ty.Extra > 0 {
-						et = &c13Ty{Kind: "a", Elem: mem.Ty.Elem, Extra: mem.Ty.Extra - 1}
-					}
-					for i := range a.Arr {
-						walk(fmt.Sprintf("%s[%d]", where, i), c13Member{Id: c13Pad(i, len(a.Arr)), Ty: et}, a.Arr[i], b.Arr[i])
-					}
-				case "m":
-					if a.K != 'O' || b.K != 'O' {
-						return
-					}
-					for i, kk := range a.Keys {
-						walk(where+"."+kk, c13Member{Id: kk, Ty: mem.Ty.Elem}, a.Vals[i], b.get(kk))
-					}
-				case "t":
-					if a.K != 'O' || b.K != 'O' {
-						return
-					}
-					for _, mm := range mem.Ty.Ms {
-						walk(where+"."+mm.Id, mm, a.get(mm.Id), b.get(mm.Id))
-					}
+				if b.K != 'q' {
+					return // reported by the strict walk
+				}
+				who := label + where
+				if !strings.HasPrefix(b.S, outsRoot+"/") {
+					mon.failf("%s: not materialised under outs/: recorded at %s", who, b.S)
+					return
+				}
+				if other, dup := at[b.S]; dup {
+					mon.failf("%s: recorded at the same location as %s: %s", who, other, b.S)
+				}
+				at[b.S] = who
+				if info, err := os.Lstat(b.S); err != nil {
+					mon.failf("%s: nothing at the recorded location %s", who, b.S)
+				} else if info.Mode()&os.ModeSymlink != 0 {
+					mon.failf("%s: the recorded location %s is a symlink, not the file", who, b.S)
+				} else if got := c13SigOf(b.S, 0); got != mon.pre[a.S] {
+					mon.failf("%s: %s holds %q, not the content this leaf had (%s)", who, b.S, c13Short(got), c13Short(mon.pre[a.S]))
+				}
+			case "a":
+				if a.K != 'A' || b.K != 'A' || len(a.Arr) != len(b.Arr) {
+					return
+				}
+				et := mem.Ty.Elem
+				if mem.Ty.Extra > 0 {
+					et = &c13Ty{Kind: "a", Elem: mem.Ty.Elem, Extra: mem.Ty.Extra - 1}
+				}
+				for i := range a.Arr {
+					walk(fmt.Sprintf("%s[%d]", where, i), c13Member{Id: c13Pad(i, len(a.Arr)), Ty: et}, a.Arr[i], b.Arr[i])
+				}
+			case "m":
+				if a.K != 'O' || b.K != 'O' {
+					return
+				}
+				for i, kk := range a.Keys {
+					walk(where+"."+kk, c13Member{Id: kk, Ty: mem.Ty.Elem}, a.Vals[i], b.get(kk))
+				}
+			case "t":
+				if a.K != 'O' || b.K != 'O' {
+					return
+				}
+				for _, mm := range mem.Ty.Ms {
+					walk(where+"."+mm.Id, mm, a.get(mm.Id), b.get(mm.Id))
 				}
 			}
-			walk(p.Id, p, pre.get(p.Id), post.get(p.Id))
 		}
+		walk(p.Id, p, pre.get(p.Id), post.get(p.Id))
 	}
 }
 
@@ -809,4 +816,39 @@ func c13MappedStream(c *Ctx, r *Result) {
 	for i := 0; i < n; i++ {
 		c13DirectMapped(c, r, i, c.Rng.Int63(), nil, nil, "")
 	}
+}
+
+// mroCollect: stage MK with the signature's outputs, called once per key of a map input; the
+// struct of its outputs, per key, is the single top-level output `res : map<COLLECTED>`.
+func (s *c13Sig) mroCollect(keys []string) string {
+	var sb strings.Builder
+	for _, f := range s.Filetypes {
+		sb.WriteString("filetype " + f + ";\n")
+	}
+	sb.WriteString("\n")
+	for _, st := range s.Structs {
+		sb.WriteString("struct " + st.Mro + "(\n")
+		for _, m := range st.Ms {
+			sb.WriteString(c13MroMember(m, ""))
+		}
+		sb.WriteString(")\n\n")
+	}
+	sb.WriteString("struct COLLECTED(\n")
+	for _, p := range s.Params {
+		sb.WriteString(c13MroMember(p, ""))
+	}
+	sb.WriteString(")\n\nstage MK(\n    in int x,\n")
+	for _, p := range s.Params {
+		sb.WriteString(c13MroMember(p, "out "))
+	}
+	sb.WriteString("    src comp \"x\",\n)\n\npipeline TOP(\n    in map<int> xs,\n    out map<COLLECTED> res,\n)\n{\n    map call MK(\n        x = split self.xs,\n    )\n\n    return (\n        res = MK,\n    )\n}\n\ncall TOP(\n    xs = {\n")
+	for i, k := range keys {
+		var kb strings.Builder
+		enc := json.NewEncoder(&kb)
+		enc.SetEscapeHTML(false)
+		enc.Encode(k)
+		fmt.Fprintf(&sb, "        %s: %d,\n", strings.TrimSpace(kb.String()), i+1)
+	}
+	sb.WriteString("    },\n)\n")
+	return sb.String()
 }
